@@ -17,6 +17,9 @@ Layer 2  SeriesCache.tla: the protocol of one bucket transcribed from tscache2.g
          equals the attached data and that every request returns under fairness.
          SeriesCacheMem.tla: the memory-limit protocol (allocCond / trimCond / inflight bytes):
          every request finishes.
+         SeriesCacheShard.tla: the shard's bucket list and the two cursors that survive the release
+         of the shard mutex (invalidateIter, trimIter) against removeBucketUnlocked: an invalidate
+         call that returned has visited every bucket that was in the shard during the whole call.
          The configurations that describe the code BEFORE the repairs made for this property must
          fail (non-vacuity); the schedules of their counterexamples, hand-written scenarios and
          simulated behaviours of the repaired model drive the real code (S->I as schedule hints;
@@ -57,11 +60,18 @@ MEM_RUNS = [
 ]
 
 
+SHARD_RUNS = [
+    ("SeriesCacheShard_mc.cfg", "shard: bucket list, invalidate / trim cursors, removals (4 buckets)", None, False),
+    ("SeriesCacheShard_seed.cfg", "what-if: bucket unlinked before the cursors are moved: invalidate ends early", "invariant:InvReachesAll", False),
+    ("SeriesCacheShard_mc_big.cfg", "shard: 6 buckets, 2 invalidations, 2 trim walks, 2 evictions, reset", None, True),
+]
+
+
 def model_checks(ctx):
     th = ctx.thorough
     cex = []
     demo = {}
-    for module, runs in (("SeriesCacheMC", PROTOCOL_RUNS), ("SeriesCacheMem", MEM_RUNS)):
+    for module, runs in (("SeriesCacheMC", PROTOCOL_RUNS), ("SeriesCacheMem", MEM_RUNS), ("SeriesCacheShard", SHARD_RUNS)):
         for cfg, what, want, big in runs:
             if big and not th:
                 continue
@@ -242,5 +252,6 @@ def run(ctx):
     ctx.ev.assume("play-mode requests are only required to return (the statement constrains non-play requests)")
     ctx.ev.assume("'waits forever': after every load has returned and every gate of the driver is open, a request that has "
                   "not returned within VERIF_C23_DEADLINE_S (120 s) while its goroutine sleeps inside the cache")
-    ctx.ev.assume("layer 2 models one bucket; requests of different queries only share the accounting and the memory limits "
-                  "(mixing of queries is checked on the real code: every row carries its query)")
+    ctx.ev.assume("layer 2 models one bucket; the shard's bucket list with its invalidate / trim cursors is SeriesCacheShard.tla, the "
+                  "accounting and memory limits shared by the buckets SeriesCacheMem.tla (mixing of queries is checked on the real "
+                  "code: every row carries its query)")
